@@ -1,5 +1,5 @@
 """shared builders for the bookkeeping harnesses (family F1): Atoms states are constructed directly
-(Atoms.__new__ + arrays) so that every consistent state is reachable, with symbolic contents and concrete shapes."""
+(the empty constructor, then every array replaced) so that every consistent state is reachable, with symbolic contents and concrete shapes."""
 import numpy as np
 from ordered_set import OrderedSet
 
@@ -35,7 +35,7 @@ def build_state(ctx, pfx, N, terms=None, coeff_rows=None, atom_rows=2, pair_coef
     extra = extra or {}
     sp = Spec()
     sp.N = N
-    a = Atoms.__new__(Atoms)
+    a = Atoms()        # through the real constructor (whatever private state it sets up exists), then every array is replaced below
     T = atom_rows
     sp.types = [ctx.int(f"{pfx}t{i}", 0, (type_hi if type_hi is not None else T - 1)) for i in range(N)]
     sp.charges = [ctx.real(f"{pfx}q{i}", -5, 5) for i in range(N)]
